@@ -52,6 +52,16 @@ CLAIMS = {
    note=NOTE_COMMON + "NOT decided (stated): the decoupling rate (v/M)^2 of the genuine BSM terms (an asymptotic statement outside contracts); the chain model -> y_f^h = m_f/v at cos(beta-alpha)=0 "
         "uses C09's getter contracts; ring normalisation (sympy) is in the trusted base for the two rational-function identities.",
    technique="relational lemmas: symbolic execution of extracted kernels + z3 NRA / ring normalisation (sympy)", design='5 C10'),
+ 'C15': dict(
+   text="Contracts on the reporting code: calculate_amu/calculate_uncertainty dispatch on loop order and resummation (enumerated exhaustively); every total equals the sum "
+        "of its parts (MSSM 1L, 2L, leading-log sums, THDM 2L, bosonic and fermionic kernels); in both detailed writers (std::cout as an output-effect trace, on the normal "
+        "AND the exception-retry path) the headline is a1L+a2L with the 2L uncertainty, every printed section sum equals the items printed above it, every percentage equals "
+        "100 x its own component / the stated reference; minimal and SLHA writers print exactly calculate_amu / calculate_uncertainty into the documented block/entry per format; "
+        "fill_block_entry changes exactly one entry of exactly the named block (frame over the whole SLHA view).  One obligation failed on the pinned tree (fermionic percentage) "
+        "with a replayed counterexample and was repaired by a fix: commit.",
+   note=NOTE_COMMON + "Model-taking callees are ghost values (pure functions of the const model: C19); iostream/boost::format text formatting to the printed precision and SLHAea "
+        "containers are assumed (SLHAea::Coll by an ordered-list contract); echo of input blocks is SLHAea's write_to_stream (external, not claimed).",
+   technique="output-effect traces by symbolic execution of the extracted writers + z3; ghost-valued callee contracts", design='5 C15'),
  'C18': dict(
    text="All clauses of C18 are postconditions of the ten real uncertainty functions: floors (2.3e-10 / 2e-12), non-negativity, finiteness, "
         "1L = |a2L| + delta2L, 0L = documented sum are proved in IEEE-754 arithmetic by CBMC code contracts for all doubles satisfying the stated "
